@@ -120,17 +120,29 @@ func genC10(r *drv.Rng, base []drv.SStep, cut int, mode string) c10Case {
 		lastAck = 1 - lastAck
 		return lastAck
 	}
-	if (mode == "sendfail" || mode == "sendfailbatch") && cut < 2 {
+	if (mode == "sendfail" || mode == "sendfailbatch" || mode == "abortsend") && cut < 2 {
 		mode = "abort" // a transport failure is simulated on a response; an un-negotiated session has none coming
 	}
 	fault := func(mode string, s int) {
 		c.Faults = append(c.Faults, len(c.Steps))
-		if mode != "getcut" {
+		if mode != "getcut" && mode != "getcutw" {
 			delete(liveAck, s)
 		}
 		switch mode {
 		case "getcut":
 			c.Steps = append(c.Steps, drv.SStep{K: "getcut", Cut: r.Intn(16), Stall: drv.Pick(r, 0, 0, 25), Get: &drv.GetSpec{NI: drv.Pick(r, "all", "name"), Name: 1, AFT: drv.Pick(r, "ALL", "ALL", "NHG", "IPV4", "NH")}})
+		case "getcutw":
+			// an abandoned Get while a write of the (live) base session is queued on the same instance
+			var el *drv.U128
+			for _, st := range c.Steps {
+				if st.K == "elect" && st.S == 1 {
+					e := *st.ID
+					el = &e
+				}
+			}
+			probeSeq++
+			c.Steps = append(c.Steps, drv.SStep{K: "getcutw", S: 1, Cut: 1 + r.Intn(14), Stall: 30, Get: &drv.GetSpec{NI: "all", AFT: "ALL"},
+				Ops: []drv.OpSpec{{ID: 1<<53 + probeSeq, NI: 1, Kind: "ADD", T: "nh", Key: 8, Elec: el}}})
 		case "sendfailbatch":
 			// the transport fails while a request of several operations is being answered
 			k := 2 + r.Intn(4)
@@ -183,8 +195,8 @@ func genC10(r *drv.Rng, base []drv.SStep, cut int, mode string) c10Case {
 					}
 				}
 			}
-			m := drv.Pick(r, "close", "abort", "sendfail", "sendfailbatch")
-			if (m == "sendfail" || m == "sendfailbatch") && !negotiated {
+			m := drv.Pick(r, "close", "abort", "sendfail", "sendfailbatch", "abortsend")
+			if (m == "sendfail" || m == "sendfailbatch" || m == "abortsend") && !negotiated {
 				m = "abort"
 			}
 			fault(m, s)
@@ -203,6 +215,21 @@ func oracleC10(c c10Case, obs []drv.SObs, snaps []string) string {
 		if obs[i].Hang != "" {
 			return fmt.Sprintf("step %d (%s): %s", i, st.K, obs[i].Hang)
 		}
+		if st.K == "getcutw" {
+			// the queued write is a legitimate change; it must have been answered
+			ok := false
+			for _, rsp := range obs[i].Resps {
+				for _, res := range rsp.GetResult() {
+					if res.GetId() == st.Ops[0].ID && res.GetStatus() == spb.AFTResult_RIB_PROGRAMMED {
+						ok = true
+					}
+				}
+			}
+			if !ok {
+				return fmt.Sprintf("step %d: the write that was waiting for the instance while a Get was abandoned was not programmed: %s", i, obs[i].Text(st))
+			}
+			continue
+		}
 		if st.K == "sendfailbatch" {
 			// the operations of the interrupted request were received before the client went away: they may apply
 			if obs[i].End == nil || obs[i].End.Code.String() == "OK" {
@@ -213,7 +240,7 @@ func oracleC10(c c10Case, obs []drv.SObs, snaps []string) string {
 		if isFault[i] && snaps[i] != snaps[i+1] {
 			return fmt.Sprintf("step %d: the client going away (%s) changed installed entries, held operations or the election state:\n--- before\n%s--- after\n%s", i, st.K, snaps[i], snaps[i+1])
 		}
-		if st.K == "sendfail" && obs[i].End != nil && obs[i].End.Code.String() == "OK" {
+		if (st.K == "sendfail" || st.K == "abortsend") && obs[i].End != nil && obs[i].End.Code.String() == "OK" {
 			return fmt.Sprintf("step %d: a response could not be written but the RPC ended OK", i)
 		}
 	}
@@ -268,13 +295,18 @@ func runC10(args []string) error {
 		for b := 0; b < nbase; b++ {
 			base := baseScript(r)
 			for cut := 1; cut <= len(base); cut++ {
-				for _, mode := range []string{"close", "abort", "sendfail"} {
+				for _, mode := range []string{"close", "abort", "sendfail", "abortsend"} {
 					cases = append(cases, genC10(r, base, cut, mode))
 				}
 			}
 			for k := 0; k < 4; k++ {
 				c := genC10(r, base, len(base), "sendfailbatch")
 				c.Steps[c.Faults[0]].Cut = k % len(c.Steps[c.Faults[0]].Ops)
+				cases = append(cases, c)
+			}
+			for k := 0; k < 6; k++ {
+				c := genC10(r, base, len(base), "getcutw")
+				c.Steps[c.Faults[0]].Cut = 1 + 3*k
 				cases = append(cases, c)
 			}
 			for k := 0; k < 18; k++ {
@@ -378,7 +410,7 @@ func runC10(args []string) error {
 		return err
 	}
 	rep := drv.Report{Property: "C10", Seed: *f.Seed, Shard: drv.ShardSize, Stats: map[string]int{}, Cases: len(cases),
-		Rule: "every prefix of base Modify scripts (negotiate, announce, program several entries per table incl. held operations, re-announce) cut by each of {half-close, cancellation, transport failure on a response}; the transport failing after each j of the k responses of a multi-operation request; a Get abandoned after each k responses (failing at once or after a stall); followed by a probe session (negotiate, win, ADD, Get, Flush) and by random sequences of 0-2 further faults each followed by a probe; every case in a worker process; non-trivial = the fault hit a session that had programmed or held at least one operation; distinct by (script, cut, mode) text"}
+		Rule: "every prefix of base Modify scripts (negotiate, announce, program several entries per table incl. held operations, re-announce) cut by each of {half-close, cancellation, transport failure on a response, the connection dying while a response is being written (the read side fails first, the stuck write afterwards)}; the transport failing after each j of the k responses of a multi-operation request; a Get abandoned after each k responses (failing at once or after a stall; also while a write of the live primary is queued on the instance); followed by a probe session (negotiate, win, ADD, Get, Flush) and by random sequences of 0-2 further faults each followed by a probe; every case in a worker process; non-trivial = the fault hit a session that had programmed or held at least one operation; distinct by (script, cut, mode) text"}
 	var coq []string
 	distinct := map[string]bool{}
 	for i := range cases {
